@@ -21,7 +21,7 @@ ASSUMPTIONS = ['link errors are reported the two ways RadioDriver does: from its
                'in the calling thread', 'virtual-time horizon of 150 s per blocking call stands in for "bounded time"']
 REQUIRED = ['mon.attempts', 'mon.trigger_fired', 'mon.reconnects', 'mon.fault_before_first_packet',
             'mon.fault_mid_setup', 'mon.fault_after_connected', 'mon.close_in_callback', 'mon.sync_api', 'mon.async_api',
-            'mon.line_preempted_runs', 'mon.three_cycle_histories']
+            'mon.line_preempted_runs', 'mon.three_cycle_histories', 'mon.fault_during_driver_connect']
 DESC_TIMEOUT = 1500
 BATCHES_PER_JOB = 4
 
@@ -49,7 +49,7 @@ def cases(tier, seed):
     S = 1 if tier == 'quick' else 6
     for (nlog, nparam, proto, mk) in profiles:
         for api in ('sync', 'async'):
-            for trig in ('fault_tx', 'fault_rx', 'close_main', 'close_cb'):
+            for trig in ('fault_tx', 'fault_rx', 'close_main', 'close_cb', 'fault_connect'):
                 for reporter in (('driver', 'sender') if trig == 'fault_tx' else ('driver',)):
                     picks = scheds if tier == 'thorough' else [scheds[n % len(scheds)], scheds[(n + 2) % len(scheds)]]
                     for (pol, lp) in picks:
@@ -191,6 +191,8 @@ def one_run(desc, k, sseed, calibrate=False):
                 spec.fail_after_tx = k
             elif trig == 'fault_rx':
                 spec.fail_after_rx = k
+            elif trig == 'fault_connect':
+                spec.fail_in_connect = ('sync', 'thread', 'race')[(k - 1) % 3]
         closer = None
         if trig == 'close_main' and not calibrate:
             def closer_fn():
@@ -246,7 +248,13 @@ def one_run(desc, k, sseed, calibrate=False):
             st = {'state': cf.state, 'link_is_none': cf.link is None, 'send_lock_locked': cf._send_lock.locked(),
                   'mem_lock_locked': cf.mem._write_requests_lock.locked(), 'incoming_alive': cf.incoming.is_alive()}
             res['state_after'] = st
-            if cf.state != State.DISCONNECTED or cf.link is not None:
+            if trig == 'fault_connect':
+                # the error was reported before open_link had the driver object: open_link stores it afterwards; the
+                # statement is judged on the state and the callbacks (the stored dead driver is recorded, not judged)
+                res['zombie_link'] = cf.link is not None
+                if cf.state != State.DISCONNECTED:
+                    V('R8:not-disconnected-after-trigger', st)
+            elif cf.state != State.DISCONNECTED or cf.link is not None:
                 V('R8:not-disconnected-after-trigger', st)
             if st['send_lock_locked']:
                 V('R8:send-lock-left-locked', st)
@@ -270,6 +278,7 @@ def one_run(desc, k, sseed, calibrate=False):
         # ---------------- attempt 2: the same object must connect again over a healthy link
         attempt['n'] = 2
         spec.fail_after_tx = spec.fail_after_rx = None
+        spec.fail_in_connect = None
         outcome.clear()
         s.horizon = s.now + 200.0
         ob.events.append((2, 'open_call', s.now, 'main', ()))
@@ -398,7 +407,7 @@ def judge(desc, k, res, ctx, rp):
             V('R4:at-connected:' + m, dict(ctxd, attempt=n, **d))
         ctx.count('mon.tables_at_connected')
     # R5: outcome of an injected fault
-    if trig in ('fault_tx', 'fault_rx') and res['spec'].faults_fired > res.get('faults_before', 0):
+    if trig in ('fault_tx', 'fault_rx', 'fault_connect') and res['spec'].faults_fired > res.get('faults_before', 0):
         nd, nl, nf = life1.count('disconnected'), life1.count('connection_lost'), life1.count('connection_failed')
         if 'link_established' in life1:
             if nd != 1 or nl != 1:
@@ -460,6 +469,8 @@ def run(desc, ctx):
             ks = list(range(1, krx + 2))
         elif desc['trigger'] == 'close_main':
             ks = list(range(1, ktx + 1))
+        elif desc['trigger'] == 'fault_connect':
+            ks = list(range(1, 10))
         else:
             ks = [1, 2, 3]
         seeds = None
@@ -487,6 +498,10 @@ def run(desc, ctx):
                         ctx.count('mon.fault_after_connected')
                 if desc['trigger'] == 'close_cb':
                     ctx.count('mon.close_in_callback')
+                if desc['trigger'] == 'fault_connect':
+                    ctx.count('mon.fault_during_driver_connect')
+                    if res.get('zombie_link'):
+                        ctx.count('obs.dead_driver_left_in_cf_link_after_error_during_connect')
             ctx.count('mon.sync_api' if desc['api'] == 'sync' else 'mon.async_api')
             if desc['line_p'] > 0:
                 ctx.count('mon.line_preempted_runs')
